@@ -49,6 +49,10 @@ PRETEXTS = [
     ("# Rule ", "# Rule-info "),
     ("# F ", "# F2 "),
     ("#name-desc ", "#name "),
+    # one marker occurs inside the other without being its beginning
+    ("#: ", "#:#: "),
+    ("#:#: ", "#: "),
+    ("# n: ", "# desc # n: "),
 ]
 NAME_ALPHA = ["abcdefghijklmnopqrstuvwxyz0123456789", " ", "éüß€日本𝔘", ".-_@!?()[]{}*+=/", "ABCXYZ", "#:;,\"\\'|<>~", "e\u0301\u212b\u2126\ufb01\u200b\u200d\u202e\ufeff\u00a0\U0001f600\u0130\u00df"]
 
